@@ -413,6 +413,8 @@ def shard_main(ctx):
         big = gen.GenOpts(late_binding=False, local_data=False, max_states=18, max_depth=4, content=False, data=False, conds=False)
         ctx.run_hypothesis([gen.charts(big, 'lua'), gen.event_histories()], lambda ch, evs: check_case(ctx, ch, evs), n // 3 + 1, case_repr,
                            name="big")
+        ctx.run_hypothesis([gen.parallel_final_charts('lua'), gen.event_histories(8, ['a', 'b', 'c', 'a', 'b', 'c', 'leave', 'back'])],
+                           lambda ch, evs: check_case(ctx, ch, evs), n // 3 + 1, case_repr, name="pardone")
         ctx.run_hypothesis([gen.charts(gen.completion_profile(), 'lua'), gen.event_histories(4, ['a', 'b'])],
                            lambda ch, evs: check_case(ctx, ch, evs), n // 3 + 1, case_repr, name="completion")
     finally:
